@@ -55,7 +55,7 @@ def run(ctx):
             raise Inconclusive("driver printed no summary")
         for key, v in re.findall(r"(\w+)=(\d+)", line[-1]):
             counts[key] = counts.get(key, 0) + int(v)
-    for need in ("msgpair", "askedAgain", "retain", "concurrent", "boundary", "prove", "transport", "z0", "z1", "z2", "mutate", "torsion", "torsionAccepted", "validate", "qualified"):
+    for need in ("overlong", "validateLong", "total", "msgpair", "askedAgain", "retain", "concurrent", "boundary", "prove", "transport", "z0", "z1", "z2", "mutate", "torsion", "torsionAccepted", "validate", "qualified"):
         if counts.get(need, 0) == 0:
             raise Inconclusive("vacuity: no %s observations were produced" % need)
     if counts["validate"] == counts["qualified"]:
